@@ -1682,6 +1682,19 @@ impl<'a> Gen<'a> {
                 self.push(Ty::Int);
             }
             3 if self.f.print && !self.in_meta => self.emit(".s"),
+            6 if self.f.vecs && self.f.loops && self.f.print && top_level && self.rng.chance(1, 6) => {
+                // a value nested a couple of hundred levels deep, formatted
+                let n = format!("{}", 196 + self.rng.below(10));
+                self.emits(&["[", "]", &n, "0", "do", "1", "collect", "loop"]);
+                match self.rng.below(3) {
+                    0 => self.emit("println"),
+                    1 => self.emits(&["dup", "print", "drop"]),
+                    _ => self.emits(&["1", "collect", "concat", "length"]),
+                }
+                if self.out.last().map(|t| t == "length").unwrap_or(false) {
+                    self.push(Ty::Int);
+                }
+            }
             4 if self.f.loops && self.depth < 2 => {
                 self.emits(&["2", "0", "do", "1", "0", "do", "2", "0", "do", "K", "J", "+", "I", "+", "drop", "loop", "loop", "loop"]);
             }
